@@ -460,10 +460,18 @@ func runRequests(sc *Scenario, out *Out) {
 				break
 			}
 			c.held[key]--
+			quiet := w.exclusive && w.parked && w.steady()
+			qlen := len(w.t.Event)
 			w.t.Request(uint32(st.I), int8(st.P-1), false, false)
-			evQ = append(evQ, qev{})
-			w.mirror = append(w.mirror, 'r')
-			w.pushGates()
+			if quiet && len(w.t.Event) == qlen {
+				// the call returned without telling the loop: the priority it was to
+				// withdraw stays in the table (reported at the end as a leak if so)
+				out.Nonconf = append(out.Nonconf, fmt.Sprintf("step %d: the withdrawal of piece %d priority %d did not reach the event loop", w.step, st.I, st.P-1))
+			} else {
+				evQ = append(evQ, qev{})
+				w.mirror = append(w.mirror, 'r')
+				w.pushGates()
+			}
 			if c.waiting && c.waitPiece == st.I {
 				c.abandoned = true
 			}
